@@ -114,6 +114,45 @@ type bprover struct {
 	inEq bool
 }
 
+// lenGetterReceiver: call is a package function of one pointer argument whose every return is the constant 0 or
+// (a conversion of) len(*param): returns the pointer argument.
+func lenGetterReceiver(w *World, call *ssa.Call) (ssa.Value, bool) {
+	cal := call.Common().StaticCallee()
+	if cal == nil || !w.InPkg(cal) || cal.Blocks == nil || len(cal.Params) != 1 || len(call.Common().Args) != 1 {
+		return nil, false
+	}
+	if _, isPtr := types.Unalias(cal.Params[0].Type()).Underlying().(*types.Pointer); !isPtr {
+		return nil, false
+	}
+	n := 0
+	for _, rb := range returnBlocks(cal) {
+		ret := rb.Instrs[len(rb.Instrs)-1].(*ssa.Return)
+		if len(ret.Results) != 1 {
+			return nil, false
+		}
+		v := ret.Results[0]
+		if k, ok := v.(*ssa.Const); ok && k.Value != nil && k.Int64() == 0 {
+			continue
+		}
+		if cv, ok := v.(*ssa.Convert); ok {
+			v = cv.X
+		}
+		inner, isLen := lenOperand(v)
+		if !isLen {
+			return nil, false
+		}
+		ld, ok := inner.(*ssa.UnOp)
+		if !ok || ld.Op != token.MUL || ld.X != ssa.Value(cal.Params[0]) {
+			return nil, false
+		}
+		n++
+	}
+	if n == 0 {
+		return nil, false
+	}
+	return call.Common().Args[0], true
+}
+
 // copyOf: v is append(<empty slice>, x...): a fresh copy whose length is len(x); returns x.
 func copyOf(v ssa.Value) (ssa.Value, bool) {
 	call, ok := v.(*ssa.Call)
@@ -386,6 +425,9 @@ func (bp *bprover) lowerBoundG(v ssa.Value, gc gctx, d int) (int64, bool) {
 		return c, true
 	}
 	best, have := int64(0), false
+	if b, ok := types.Unalias(v.Type()).Underlying().(*types.Basic); ok && b.Info()&types.IsUnsigned != 0 {
+		best, have = 0, true // an unsigned index is never negative
+	}
 	upd := func(c int64) {
 		if !have || c > best {
 			best, have = c, true
@@ -521,6 +563,12 @@ func (bp *bprover) upperRelG(v ssa.Value, base ssa.Value, gc gctx, d int) (int64
 	case *ssa.Call:
 		if inner, isLen := lenOperand(x); isLen && bp.sameLen(inner, base) {
 			upd(0)
+		}
+		// a length getter of the package (Count): every return is 0 or len(*receiver)
+		if p, ok := lenGetterReceiver(bp.w, x); ok {
+			if ld, isLoad := resolveLocal(stripConv(base)).(*ssa.UnOp); isLoad && ld.Op == token.MUL && ld.X == p {
+				upd(0)
+			}
 		}
 		if cal := x.Common().StaticCallee(); cal != nil && cal.Object() != nil && cal.Object().Pkg() != nil {
 			p := cal.Object().Pkg().Path()
@@ -1072,15 +1120,51 @@ func boundedLoop(h *ssa.BasicBlock, lh map[*ssa.BasicBlock]map[*ssa.BasicBlock]b
 		}
 		return true, "counted"
 	}
-	invariant := func(v ssa.Value) bool {
+	var invariant func(v ssa.Value) bool
+	invariant = func(v ssa.Value) bool {
 		switch x := v.(type) {
 		case *ssa.Const, *ssa.Parameter, *ssa.FreeVar:
 			return true
-		default:
-			if in, ok := v.(ssa.Instruction); ok {
-				return !inLoop(in.Block())
+		case *ssa.Call:
+			// len/cap of a loop-invariant value, re-evaluated in the header of `for i := 0; i < len(x); i++`
+			if bi, ok := x.Common().Value.(*ssa.Builtin); ok && (bi.Name() == "len" || bi.Name() == "cap") && len(x.Common().Args) == 1 {
+				if invariant(x.Common().Args[0]) {
+					return true
+				}
 			}
-			_ = x
+		case *ssa.UnOp:
+			// a load of a local variable that is not assigned inside the loop
+			if x.Op == token.MUL && inLoop(x.Block()) {
+				if al, ok := x.X.(*ssa.Alloc); ok && !inLoop(al.Block()) {
+					stored := false
+					for _, st := range storesTo(al) {
+						if inLoop(st.Block()) {
+							stored = true
+						}
+					}
+					// the address must not escape into a call made inside the loop either
+					if refs := al.Referrers(); refs != nil {
+						for _, r := range *refs {
+							if call, ok := r.(ssa.CallInstruction); ok && inLoop(call.Block()) {
+								stored = true
+							}
+							if _, ok := r.(*ssa.MakeClosure); ok {
+								stored = true
+							}
+						}
+					}
+					if !stored {
+						return true
+					}
+				}
+			}
+		case *ssa.Convert:
+			return invariant(x.X)
+		case *ssa.ChangeType:
+			return invariant(x.X)
+		}
+		if in, ok := v.(ssa.Instruction); ok {
+			return !inLoop(in.Block())
 		}
 		return false
 	}
